@@ -16,7 +16,8 @@ from . import lib
 def run(ctx):
     q = ctx.quick
     if ctx.replay:
-        raise lib.ToolError("re-run the check: inputs are regenerated from the seed")
+        ctx.regenerate()
+        q = ctx.quick
     cfgs = ["KDTree.quick.cfg", "KDTree.d3.cfg"] if q else ["KDTree.thorough.cfg", "KDTree.d3.cfg"]
     mcs = lib.tlc_parallel([dict(module="image/KDTree", cfg=c, workers=6 if q else 8, check=False, timeout=3400, heap="6g") for c in cfgs])
     for c, r in zip(cfgs, mcs):
